@@ -141,6 +141,8 @@ INCLUDE = {
     # "every response parses as a DNS message": the encoder's output is accepted by the decoder and by the reference decoder
     # "id-mismatched or truncated UDP replies retried over TCP" (C07's anchor) is the same lifted decision
     "C07": [("C03", "c03_upstream_reply_accepted_by_id", None)],
+    # re-encoding what was decoded must not crash either: the encoder side of the codec layouts
+    "C05": [("C14", "c14_roundtrip", ("encoding then decoding never panics",))],
     "C04": [("C14", "c14_roundtrip", ("encoding then decoding never panics", "the decoder accepts what the encoder produced", "independent RFC 1035 decoder"))],
     # YAML -> Interface: null suppresses, values recorded as configured (the loader half of "exactly the configured values")
     "C17": [("C19", "c19_radv_interface", ("`", "a configured", "an absent", "dns-search lifetime", "dns-servers lifetime", "an accepted hop-limit", "managed flag", "other flag", "reachable is", "retransmit is"))],
